@@ -466,6 +466,7 @@ func Round3Generic(c *Ctx, id string) {
 		dispatchCtxCarriesOperation(c)
 		mapRangeSorted(c, "map-range-sorted", modPath("graphql/introspection"), pkgExecutor, pkgGraphql)
 	case "C02":
+		genRound3(c, "ptr-ptr")
 		failedAssertIsZero(c, "failed-assert-is-zero", pkgGraphql)
 		jsonUnmarshalNeedsPointer(c, "json-unmarshal-needs-pointer", pkgGraphql, pkgTransport)
 		ifaceConstCompare(c, "iface-const-compare", pkgGraphql)
